@@ -62,6 +62,17 @@ impl Model {
             r.obs.retain(|o| o.unacked <= limit);
         }
     }
+    /// Changing the limit is not one of the operations the properties speak
+    /// about, so the model is tolerant: an observer whose count exceeds the
+    /// new limit may be dropped right away or at the next round of its
+    /// resource (today's behaviour).  `present` says what the implementation
+    /// did; the model follows it.
+    fn set_limit(&mut self, limit: u8, present: &dyn Fn(&str, Ep) -> bool) {
+        self.limit = limit;
+        for (path, r) in self.res.iter_mut() {
+            r.obs.retain(|o| o.unacked <= limit as u32 || present(path, o.ep));
+        }
+    }
     fn acknowledge(&mut self, ep: Ep, mid: u16) {
         for r in self.res.values_mut() {
             if let Some(o) = r.obs.iter_mut().find(|o| o.ep == ep && o.pending == Some(mid)) {
@@ -101,6 +112,8 @@ struct Spec {
     clients: Vec<ClientScript>,
     /// (time, path index, confirmable)
     rounds: Vec<(u64, usize, bool)>,
+    /// (time, new limit): set_unacknowledged_limit called mid-history
+    limit_changes: Vec<(u64, u8)>,
     mid0: u16,
 }
 
@@ -163,7 +176,14 @@ fn gen_spec(ch: &mut Ch) -> Spec {
         let ack_pm = *ch.pick(&[1000u64, 900, 500, 0, 990], "o.ack_pm");
         clients.push(ClientScript { ep: 10 + ci as Ep, ops, ack_pm, net: gen_net(ch, faults) });
     }
-    Spec { limit, paths, clients, rounds, mid0: ch.below(65536, "o.mid0") as u16 }
+    let mut limit_changes = Vec::new();
+    if ch.chance(1, 4, "o.limit-change") {
+        let n = 1 + ch.below(2, "o.limit-change.n");
+        for _ in 0..n {
+            limit_changes.push((ch.below(horizon + 1, "o.limit-change.t"), *ch.pick(&[0u8, 1, 2, 3, 10, 255], "o.limit-change.v")));
+        }
+    }
+    Spec { limit, paths, clients, rounds, limit_changes, mid0: ch.below(65536, "o.mid0") as u16 }
 }
 
 // ---- the world -------------------------------------------------------------
@@ -173,6 +193,7 @@ enum Ev {
     ToServer { from: usize, bytes: Vec<u8> },
     ToClient { to: usize, bytes: Vec<u8>, truth: Notif },
     Round { idx: usize },
+    SetLimit { value: u8 },
 }
 
 /// ground truth attached to every notification datagram
@@ -295,6 +316,7 @@ impl World {
                     }
                     2 => ("C14", "deregister-exact"),
                     3 => ("C15", "evict-exact"),
+                    5 => ("C14", "other-resource-untouched"),
                     _ => ("C15", "ack-ignored"),
                 };
                 self.viol.push(Violation::new(prop, clause, format!("after {}: resource {:?} lists {:?}, reference model says {:?} (limit {})", what, p, real_ids, model_ids, self.model.limit)));
@@ -344,6 +366,13 @@ impl World {
         self.last_op = op;
     }
 
+    fn set_limit(&mut self, value: u8) {
+        self.subject.set_unacknowledged_limit(value);
+        let subject = &self.subject;
+        let present = |path: &str, ep: Ep| -> bool { subject.get_resource_observers(path).map_or(false, |v| v.iter().any(|o| o.endpoint == ep)) };
+        self.model.set_limit(value, &present);
+    }
+
     fn before_all(&self) -> BTreeMap<String, Vec<(Ep, Vec<u8>, Option<u8>, Option<Option<u16>>)>> {
         self.all_paths().into_iter().map(|p| (p.clone(), self.snapshot_real(&p))).collect()
     }
@@ -380,7 +409,7 @@ fn run_direct(ch: &mut Ch, verbose: bool) -> Outcome {
         if w.dead {
             break;
         }
-        let kind = ch.below(4, "od.kind");
+        let kind = ch.weighted(&[24, 24, 24, 24, 4], "od.kind") as u64;
         let ep: Ep = 1 + ch.below(2, "od.ep") as Ep;
         let token = if ch.below(2, "od.token") == 0 { vec![0xA] } else { vec![0xB, 0xB] };
         let pi = ch.below(3, "od.path") as usize;
@@ -438,6 +467,11 @@ fn run_direct(ch: &mut Ch, verbose: bool) -> Outcome {
                     }
                 }
                 w.compare(3, Some(&path), &before, &format!("{} round on {:?} (mid {})", if con { "CON" } else { "NON" }, path, mid));
+            }
+            4 => {
+                let v = (pi % 3) as u8;
+                w.set_limit(v);
+                w.compare(5, None, &before, &format!("set_unacknowledged_limit({})", v));
             }
             _ => {
                 let mut req: CoapRequest<Ep> = CoapRequest::new();
@@ -522,7 +556,7 @@ fn run_marathon(ch: &mut Ch, verbose: bool) -> Outcome {
             let pkt = create_notification(mid, token.clone(), seq, vec![0x76], con);
             let ok = match pkt.to_bytes_unlimited().ok().and_then(|b| Packet::from_bytes(&b).ok()) {
                 None => false,
-                Some(d) => d.get_first_option(CoapOption::Observe).cloned() == Some(minimal_uint(seq)) && d.get_observe_value().and_then(|r| r.ok()) == Some(seq) && d.get_token() == &token[..] && d.header.message_id == mid,
+                Some(d) => d.get_first_option(CoapOption::Observe).filter(|b| b.len() <= 4).map(|b| b.iter().fold(0u32, |a, x| (a << 8) | *x as u32)) == Some(seq) && d.get_token() == &token[..] && d.header.message_id == mid,
             };
             w.stats.hit("c15.notification.checked");
             if !ok {
@@ -613,6 +647,9 @@ pub fn run(ch: &mut Ch, verbose: bool) -> Outcome {
     }
     for (idx, (t, _, _)) in spec.rounds.iter().enumerate() {
         q.at(*t, Ev::Round { idx });
+    }
+    for (t, v) in &spec.limit_changes {
+        q.at(*t, Ev::SetLimit { value: *v });
     }
     let mut next_mid = spec.mid0;
     let mut events = 0u64;
@@ -774,19 +811,24 @@ pub fn run(ch: &mut Ch, verbose: bool) -> Outcome {
                     let bytes = pkt.to_bytes_unlimited().unwrap_or_default();
                     // C15/notification, checked on the encoded bytes
                     w.stats.hit("c15.notification.checked");
-                    match Packet::from_bytes(&bytes) {
-                        Err(_) => w.viol.push(Violation::new("C15", "notification", "notification does not decode".into())),
-                        Ok(d) => {
-                            let obs_opt: Option<Vec<u8>> = d.get_first_option(CoapOption::Observe).cloned();
-                            let want_t = if con { MessageType::Confirmable } else { MessageType::NonConfirmable };
-                            if d.get_token() != &token[..]
-                                || d.header.message_id != mid
-                                || d.header.get_type() != want_t
+                    // decoded with the reference parser, not with the crate's
+                    match crate::refparse::accept(&bytes) {
+                        None => w.viol.push(Violation::new("C15", "notification", "notification does not decode".into())),
+                        Some(d) => {
+                            let obs_opt: Option<Vec<u8>> = d.first_opt(6).cloned();
+                            let want_t: u8 = if con { 0 } else { 1 };
+                            // the Observe value must decode to the sequence
+                            // (any uint encoding of it; minimality is C06's)
+                            let obs_val = obs_opt.as_ref().filter(|b| b.len() <= 4).map(|b| b.iter().fold(0u32, |a, x| (a << 8) | *x as u32));
+                            if obs_opt == Some(minimal_uint(seq)) {
+                                w.stats.hit("c15.notification.minimal-uint");
+                            }
+                            if d.token != *token
+                                || d.mid != mid
+                                || d.mtype() != want_t
                                 || d.payload != payload
-                                || u8::from(d.header.code) != 0x45
-                                || d.header.get_version() != 1
-                                || obs_opt != Some(minimal_uint(seq))
-                                || d.get_option(CoapOption::Observe).map_or(0, |l| l.len()) != 1
+                                || obs_val != Some(seq)
+                                || d.opt_values(6).len() != 1
                             {
                                 w.viol.push(Violation::new(
                                     "C15",
@@ -844,6 +886,13 @@ pub fn run(ch: &mut Ch, verbose: bool) -> Outcome {
                 }
                 w.trace.line(|| format!("t={} srv: round {} on {:?} mid={} {} -> {} observers notified, {} remain", now, idx, path, mid, if con { "CON" } else { "NON" }, observers.len(), live.len()));
                 w.compare(3, Some(&path), &before, &format!("{} round on {:?} (mid {})", if con { "CON" } else { "NON" }, path, mid));
+            }
+            Ev::SetLimit { value } => {
+                let before = w.before_all();
+                w.set_limit(value);
+                w.stats.hit("observe.op.set-limit");
+                w.trace.line(|| format!("t={} srv: set_unacknowledged_limit({})", now, value));
+                w.compare(5, None, &before, &format!("set_unacknowledged_limit({})", value));
             }
             Ev::ToClient { to, bytes, truth } => {
                 let c = &spec.clients[to];
